@@ -322,8 +322,20 @@ func (h *HTTPSim) panos(w http.ResponseWriter, r *http.Request, ord int) {
 				id, map[bool]string{true: "ACT", false: "FIN"}[res == "PEND"], res)
 			return
 		}
-		h.event(ord, safeRaw, "read-only", "unmodelled", "")
-		io.WriteString(w, `<response status="success"><result/></response>`)
+		if strings.HasPrefix(strings.TrimSpace(cmd), "<show>") {
+			h.event(ord, safeRaw, "read-only", "unmodelled", "")
+			io.WriteString(w, `<response status="success"><result/></response>`)
+			return
+		}
+		// Operational commands other than <show> act on the device
+		// (revert / load / save of configurations, restarts, ...): what
+		// they do is not modelled, that they were sent is recorded as a
+		// change of the device.
+		if h.deliverFault(w, f, ord, safeRaw, "config-change") {
+			return
+		}
+		h.event(ord, "op "+cmd, "config-change", "accepted:unmodelled-operational-command", "")
+		io.WriteString(w, `<response status="success"><result>ok</result></response>`)
 	case "config":
 		action := q.Get("action")
 		xpath := q.Get("xpath")
